@@ -737,6 +737,19 @@ Section Corollaries.
       destruct (vcompare_same_kind k x (snd cv) Hk (Hcols _ Hin)) as (c & _ & Hvc & _).
       eauto.
   Qed.
+  Theorem not_in_subquery_complement : forall (r : row) (a : expr Q) q k x
+                                              (cols : list (string * value)),
+    operand r a = Some x -> kind_of x = Some k ->
+    e_sub E q (scope r (e_data E)) = Ok (VArr (map (fun cv => VObj [cv]) cols)) ->
+    Forall (fun cv => kind_of (snd cv) = Some k) cols ->
+    exists b,
+      eval E r (EInSub false a q) = Ok (RVal (VBool b)) /\
+      eval E r (EInSub true a q) = Ok (RVal (VBool (negb b))).
+  Proof.
+    intros r a q k x cols Hop Hk Hsub Hcols. eexists. split.
+    - rewrite (in_subquery r false a q k x cols Hop Hk Hsub Hcols). reflexivity.
+    - rewrite (in_subquery r true a q k x cols Hop Hk Hsub Hcols). reflexivity.
+  Qed.
 End Corollaries.
 
 (* ================================================================== *)
